@@ -7,7 +7,7 @@ VARIABLES cfg
 allvars == <<vars, cfg>>
 
 AllPresent(n) == [j \in 1..n |-> TRUE]
-\* id schemes: "tens": endpoints 10, 20, 30 and a decoy 99;  "dense": ids 0..N-1 with a decoy first (0) and last (N-1) and the endpoints
+\* id schemes: "tens": endpoints 10, 20, 30 and a decoy 99;  "bare": the same without the decoy;  "dense": ids 0..N-1 with a decoy first (0) and last (N-1) and the endpoints
 \* in between (in the order given by perm), i.e. a zero-based contiguous id range whose interior may be out of order
 EId(c, j) == IF c.ids = "dense" THEN j ELSE 10 * j
 MkV(i, k) == [id |-> i, kind |-> k, fixed |-> FALSE, pose |-> "p"]
@@ -16,6 +16,7 @@ VList(c) ==
       kept == SelectSeq(ends, LAMBDA v : c.present[IF c.ids = "dense" THEN v.id ELSE v.id \div 10])
       mid == IF c.perm = "rev" THEN Reverse(kept) ELSE kept
   IN IF c.ids = "dense" THEN <<MkV(0, "SE2")>> \o mid \o <<MkV(c.nv + 1, "R2")>>
+     ELSE IF c.ids = "bare" THEN mid                                        \* no decoy: with every named id absent the vertex list is EMPTY
      ELSE IF c.perm = "rev" THEN <<MkV(99, "SE2")>> \o mid ELSE mid \o <<MkV(99, "SE2")>>
 \* dup = "none": the edge names nv different vertices; dup = "last": it names nv vertices but the last id repeats the first one
 EVids(c) == [j \in 1..c.nv |-> IF c.dup = "last" /\ j = c.nv /\ c.nv > 1 THEN EId(c, 1) ELSE EId(c, j)]
@@ -41,7 +42,8 @@ InitCfg(clss, nvs, ests, offs, infos, presents(_), perms) ==
   \E cl \in clss, n \in nvs, es \in ests, of \in offs, inf \in infos, pm \in perms :
     \E ks \in KindTuples(n), pr \in presents(n) :
       /\ (cl = "odo" => of = "none")
-      /\ \E sch \in {"tens", "dense"}, dp \in {"none", "last"}, cp \in BOOLEAN :
+      /\ \E sch \in {"tens", "dense", "bare"}, dp \in {"none", "last"}, cp \in BOOLEAN :
+           /\ (sch = "bare" => dp = "none" /\ ~cp)
            /\ (cp => n = 2 /\ pr = AllPresent(n) /\ dp = "none" /\ sch = "tens")
            /\ (dp = "last" => n = 3 /\ pr = AllPresent(n))                 \* (an edge naming one vertex twice among TWO ids is outside the domain, R7)
            /\ (sch = "dense" => pr = AllPresent(n))
